@@ -11,6 +11,19 @@ CHECKS = {
                   "crc_hqx/struct.pack as modelled (validated by the stream, exhaustively for short inputs).",
              tech="Lean 4 proof by induction over the hex codec + differential correspondence (model vs code) + Spec judge",
              ref="§7 C04"),
+ "C19": dict(text="Every clause of the property is a Lean theorem decided by kernel evaluation over the complete tables "
+                  "(9 types, 4 classes, 4 categories, both port maps) which the translator regenerates from the working tree on "
+                  "every run; the class guards are additionally exercised by constructing all 36 (class, type) pairs for real.",
+             note="Trusted: Lean kernel (axioms: propext at most), translator (import of the enums/dicts, AST of the class "
+                  "guards), exhaustive correspondence of the guards.",
+             tech="Lean 4 `decide` over tables regenerated from source + exhaustive correspondence (36 constructions)",
+             ref="§7 C19"),
+ "C12": dict(text="Lean theorems for ALL duplicate-free day collections of any length/order (induction: sum of bit values = mask of "
+                  "the set), all 127 masks both ways, all rejected inputs; models of weekdays_to_hexadecimal/bit_summary_to_days "
+                  "tied to the code by exhaustive correspondence over every accepted input form and all masks.",
+             note="Trusted: Lean kernel (propext, Quot.sound), generated Days table, Python's len(set(x)) modelled as 'no duplicates'.",
+             tech="Lean 4 induction + `decide +kernel` over the finite mask domain + exhaustive correspondence",
+             ref="§7 C12"),
 }
 NOT_YET = "check not built yet in this revision (work in progress; see DESIGN.md Appendix B)"
 m = {
